@@ -107,6 +107,7 @@ Proof. rewrite fold_mul by (left; reflexivity). rewrite Z.mul_comm. reflexivity.
    between — is a literal of the ruled base type carrying exactly the value that plain arithmetic
    (Spec/FoldSpec.exact2; floor division and modulo for a non-zero divisor; boolean negation; k + x) gives. *)
 From NadaV.Model Require Import Surface Trace Compile Mir Corr.
+From NadaV.Spec Require Import FoldSpec.
 From NadaV.Proofs Require Import C02Program C06Program.
 
 Theorem C06_literal_only_values_are_exact : forall ss fuel ρ s,
